@@ -200,7 +200,11 @@ explore(int remaining)
 				int reneg = start_has_reneg || strstr(path, "renegotiate") != NULL;
 				int e = ec ? ec : es;
 				/* application data crossing a renegotiation request fails with UNEXPECTED: same root cause as the C19 finding */
-				if (e == BR_ERR_UNEXPECTED && reneg) snprintf(key, sizeof key, "honest-failure:data-crossing-renegotiation");
+				/* known behaviour, with its precise signature: the failing engine is inside a handshake (renegotiation) and the
+				   record it choked on is application data */
+				br_ssl_engine_context *fe = ec ? W.c.eng : W.s.eng;
+				if (e == BR_ERR_UNEXPECTED && reneg && fe->record_type_in == 23 /* application_data */ && (fe->application_data & 1) == 0)
+					snprintf(key, sizeof key, "honest-failure:data-crossing-renegotiation");
 				else snprintf(key, sizeof key, "honest-failure:error-%d", e);
 				snprintf(what, sizeof what, "engine failed (client err=%d, server err=%d) although both peers are honest and every byte was delivered in order", ec, es);
 				TP_VIOL(key, what);
